@@ -1,5 +1,5 @@
 \* exhaustive: 5 scenarios, kill after every file operation
 SPECIFICATION Spec
 CONSTANTS Variant = "intended"
-INVARIANTS C23_PointOldOrNew C23_OldNotLostBeforeNew C23_CommandsKeepWorking C23_TmpNeverVisible
+INVARIANTS C23_PointOldOrNew C23_OldNotLostBeforeNew C23_CommandsKeepWorking C23_TmpNeverVisible C23_TaNeverTruncated
 CHECK_DEADLOCK FALSE
